@@ -588,7 +588,7 @@ theorem load_spec (prm : Nat) (recs : List (Acc cr)) (hpw : recs.Pairwise recRel
     (fun a ha => ⟨by simp [W.fresh, lk], by simp [W.fresh, lk], by simp [W.fresh], hs a ha⟩)
   exact ⟨i1, by rw [i2]; simp [W.records, W.fresh], i3, i4⟩
 
-/-! ### the full invariant and its preservation (repaired variant) -/
+/-! ### the full invariant and its preservation -/
 
 structure Inv (w : W cr) : Prop where
   idx : Inv0 w
@@ -673,7 +673,7 @@ theorem setObj_inv0 {w : W cr} (h : Inv0 w) {id : Nat} {a a' : Acc cr} (hd : w.d
     · simp only [hxe, if_false] at hb; exact h.sealOK x hx b hb
 
 theorem addAccountData_inv {w : W cr} (h : Inv w) (a : Acc cr) (hnd : a.isDefault = false) (hs : a.Sealed) :
-    Inv (w.addAccountData .sound a).2 := by
+    Inv (w.addAccountData a).2 := by
   unfold W.addAccountData
   split
   · exact h
@@ -685,7 +685,7 @@ theorem addAccountData_inv {w : W cr} (h : Inv w) (a : Acc cr) (hnd : a.isDefaul
         have hadr' : lk w.byAddr a.addr = none := by
           cases hl : lk w.byAddr a.addr with
           | none => rfl
-          | some x => exact absurd ⟨rfl, by simp [hl]⟩ hadr
+          | some x => exact absurd (by simp [hl]) hadr
         simp only
         have hlabel : a.label ≠ "" → lk w.byLabel a.label = none := by
           intro h0
@@ -720,8 +720,8 @@ theorem changeScheme_inv {w : W cr} (h : Inv w) (addr scheme : Nat) : Inv (w.cha
       · exact h
       · exact Inv.of_saved (setObj_inv0 h.idx ha rfl rfl rfl (h.idx.sealOK id ((h.idx.addr _ id).mp hl).1 a ha)) h.dfltSome
 
-theorem changePassword_inv {w : W cr} (v : Variant) (h : Inv w) (addr old new salt : Nat) :
-    Inv (w.changePassword v addr old new salt).2 := by
+theorem changePassword_inv {w : W cr} (h : Inv w) (addr old new salt : Nat) :
+    Inv (w.changePassword addr old new salt).2 := by
   unfold W.changePassword
   split
   · exact h
@@ -877,7 +877,7 @@ theorem deleteAccount_inv {w : W cr} (h : Inv w) (addr pw : Nat) : Inv (w.delete
           rw [hdf]
           exact h.dfltSome (fun e => by rw [e] at hm; cases hm)
 
-theorem setLabel_inv {w : W cr} (h : Inv w) (addr : Nat) (label : String) : Inv (w.setLabel .sound addr label).2 := by
+theorem setLabel_inv {w : W cr} (h : Inv w) (addr : Nat) (label : String) : Inv (w.setLabel addr label).2 := by
   unfold W.setLabel
   split
   · exact h
@@ -900,7 +900,7 @@ theorem setLabel_inv {w : W cr} (h : Inv w) (addr : Nat) (label : String) : Inv 
           rw [ha] at ha0; cases ha0
           let a' : Acc cr := { a with label := label }
           let w1 := (w.setObj id a').save
-          let w3 : W cr := if Variant.sound.fixEmptyLabel ∧ label = "" then { w1 with byLabel := ers w1.byLabel a.label }
+          let w3 : W cr := if label = "" then { w1 with byLabel := ers w1.byLabel a.label }
             else { ({ w1 with byLabel := ers w1.byLabel a.label } : W cr) with byLabel := ins (ers w1.byLabel a.label) label id }
           show Inv w3
           have hder : ∀ x, w3.deref x = if id = x then some a' else w.deref x := by
@@ -915,12 +915,10 @@ theorem setLabel_inv {w : W cr} (h : Inv w) (addr : Nat) (label : String) : Inv 
             intro l
             simp only [w3]
             by_cases hle : label = ""
-            · have : Variant.sound.fixEmptyLabel = true ∧ label = "" := ⟨rfl, hle⟩
-              rw [if_pos this]
+            · rw [if_pos hle]
               simp only [hle, ne_eq, not_true, false_and, if_false]
               exact lk_ers _ _ _
-            · have : ¬ (Variant.sound.fixEmptyLabel = true ∧ label = "") := fun e => hle e.2
-              rw [if_neg this]
+            · rw [if_neg hle]
               simp only [lk_ins, ne_eq, hle, not_false_iff, true_and]
               by_cases hk : label = l
               · simp [hk]
@@ -1119,7 +1117,7 @@ theorem setDefault_inv {w : W cr} (h : Inv w) (addr : Nat) : Inv (w.setDefault a
           exact Inv.of_saved s2 (fun _ => rfl)
 
 
-theorem step_inv {w : W cr} (h : Inv w) (op : Op) : Inv (w.step .sound op).2 := by
+theorem step_inv {w : W cr} (h : Inv w) (op : Op) : Inv (w.step op).2 := by
   cases op with
   | new l s p sk a sa =>
     simp only [W.step, W.newAccount]
@@ -1130,11 +1128,11 @@ theorem step_inv {w : W cr} (h : Inv w) (op : Op) : Inv (w.step .sound op).2 := 
   | del a p => exact deleteAccount_inv h a p
   | setDefault a => exact setDefault_inv h a
   | setLabel a l => exact setLabel_inv h a l
-  | changePw a o n sa => exact changePassword_inv _ h a o n sa
+  | changePw a o n sa => exact changePassword_inv h a o n sa
   | changeScheme a s => exact changeScheme_inv h a s
   | reload => exact (reload_spec h).1
 
-theorem run_inv {w : W cr} (h : Inv w) (ops : List Op) : Inv (W.run .sound w ops) := by
+theorem run_inv {w : W cr} (h : Inv w) (ops : List Op) : Inv (W.run w ops) := by
   induction ops generalizing w with
   | nil => exact h
   | cons op r ih => exact ih (step_inv h op)
@@ -1177,10 +1175,10 @@ theorem loadRecs_records {w : W cr} (h : HeapOK w) (recs : List (Acc cr)) :
     refine ⟨?_, by rw [i2]; rfl, by rw [i3]; rfl⟩
     rw [i1, records_push h a]; simp
 
-/-- the persisted file always mirrors the in-memory list, whichever repairs are applied -/
+/-- the persisted file always mirrors the in-memory list (needs no index invariant) -/
 def FileOK (w : W cr) : Prop := (w.file = none ∧ w.list = []) ∨ w.file = some (w.prm, w.records)
 
-theorem step_fileOK (v : Variant) {w : W cr} (h : FileOK w) (op : Op) : FileOK (w.step v op).2 := by
+theorem step_fileOK {w : W cr} (h : FileOK w) (op : Op) : FileOK (w.step op).2 := by
   have hs : ∀ u : W cr, FileOK u.save := fun u => Or.inr rfl
   cases op with
   | new l s p sk a sa =>
